@@ -214,7 +214,8 @@ def matrix_prod(mat, states, inplace=False):
     if inplace:
         try:
             # the state axis is a core dimension here: only batch axes are inserted
-            bmat = mat[(...,) + (NAX,) * (ndim - 1) + (SL, SL)] if ndim > 1 else mat[..., 0, :, :]
+            # (`mat` already carries the inserted axes: drop the one standing for the state axis)
+            bmat = mat[..., 0, :, :]
             return xp.matmul(
                 bmat, states, axes=[(-2, -1), (-1, -2), (-1, -2)], out=states
             )
